@@ -74,7 +74,7 @@ Definition spec_ok (c : case) : bool :=
 
 (* ------------------------------------------------------------------ known_class *)
 (* The former class 1 (hash executors missed keys that are equal in SQL but not identical values,
-   Int 1 / Float 1.0, 0.0 / -0.0) was repaired in /repo by 50ce016 (hash_join_key); executor cases
+   Int 1 / Float 1.0, 0.0 / -0.0) was repaired in /repo by dff11cf (hash_join_key); executor cases
    have no open finding class.  `mixed_equal` still marks the regime for the statistics. *)
 Definition keys_identical (l r : row) (lk rk : list nat) : bool :=
   keys_all (fun a b => match a, b with Some x, Some y => value_eqb x y | _, _ => false end) l r lk rk.
